@@ -6,6 +6,7 @@ xm_c09: match patterns on the Lean model.
 Requests (same file as for harness/c09_patterns.cpp; the hex fields are for the C++ side):
   doc <hex xml> <n> <tok>…        tok = r | e:<name>:<parent> | a:<name>:<parent> | t::<parent> | c::<parent> | p:<target>:<parent>
       reply  "doc <n> <tok>…" (the table as understood) or "doc ERR:wf"
+  variant <findAttrFix> <attrGuard> <rootGuard> <backtrack>   (0/1 each) selects the model variant (Matcher.lean `Variant`); echoed
   pat <hex pattern> <alt> ('|' <alt>)*
       alt  = ("abs" | "rel") <step>*          step = <sep>:<axis>:<test>:<preds>
       sep  = c | d      axis = c | a      test = n.<name> | any | text | comment | pi | pl.<name> | node
@@ -19,6 +20,7 @@ namespace Driver.C09
 
 structure St where
   doc : Option Doc := none
+  v : Variant := Variant.asWritten
 
 def parseNode (tok : String) : Option NodeInfo :=
   match tok.splitOn ":" with
@@ -94,22 +96,28 @@ def splitAlts (ws : List String) : List (List String) :=
     | a :: r => (w :: a) :: r
     | [] => [[w]]) [[]]
 
+def bit (s : String) : Option Bool := if s = "1" then some true else if s = "0" then some false else none
+
 def step (s : St) : List String → St × String
+  | ["variant", f, a, r, b] =>
+    match bit f, bit a, bit r, bit b with
+    | some f', some a', some r', some b' => ({ s with v := ⟨f', a', r', b'⟩ }, s!"variant {f} {a} {r} {b}")
+    | _, _, _, _ => (s, "bad")
   | "doc" :: _hex :: n :: toks =>
     match n.toNat?, toks.mapM parseNode with
     | some n, some nodes =>
       let d : Doc := { nodes := nodes }
       if n = nodes.length ∧ d.WF then
-        ({ doc := some d }, s!"doc {n}" ++ String.join (nodes.map fun ni => " " ++ showNode ni))
-      else ({ doc := none }, "doc ERR:wf")
-    | _, _ => ({ doc := none }, "doc ERR:wf")
+        ({ s with doc := some d }, s!"doc {n}" ++ String.join (nodes.map fun ni => " " ++ showNode ni))
+      else ({ s with doc := none }, "doc ERR:wf")
+    | _, _ => ({ s with doc := none }, "doc ERR:wf")
   | "pat" :: _hex :: rest =>
     match s.doc, (splitAlts rest).mapM parsePath with
     | some d, some P =>
       if P.all Path.valid ∧ !P.isEmpty then
         let idx := List.range d.size
         let codes := ";".intercalate (P.map fun p => String.ofList ((compilePath p).map (·.code.char)))
-        let m := String.join (idx.map fun i => toString (getMatchScore d P i).toNat)
+        let m := String.join (idx.map fun i => toString (getMatchScore s.v d P i).toNat)
         let sp := String.join (idx.map fun i => if Spec.matchesPattern d P i then "1" else "0")
         (s, s!"pat {Pattern.render P} codes={codes} m={m} s={sp}")
       else (s, "pat ERR:invalid")
